@@ -13,8 +13,11 @@ instance all theorems of `Props/C04.lean` are about — computes exactly those e
 a formula in the Python source changes the generated definition and the corresponding theorem stops
 checking (a broken proof obligation of C04).
 
+Also regenerated: the selector clamp `selector.clamp(min=0, max=value.duration)` and the overbound
+replacement of `_synparam_at` (`neural/synapses/mixins.py`), tied to `clamp` / `applyOverbound`.
+
 What stays hand-written and tied by correspondence only: the record plumbing around the expressions
-(`push`, `peek`, the order of the assignments) and `_synparam_at`.
+(`push`, `peek`, the order of the assignments) and the branch structure of `_synparam_at`.
 -/
 namespace InfernoVerif.Synapse.Glue
 open InfernoVerif.Synapse InfernoVerif.Gen InfernoVerif.Select
@@ -87,5 +90,34 @@ theorem gen_step_double_exp (c : Cfg ℝ) (s : St ℝ) (x : ℝ) :
   simp only []
   cases h2 : (s.cur.push (expUpdate realSOps c.dt c.tau (realSOps.K.div c.Q (realSOps.K.sub c.tau c.tauR)) p x) c.inplace).read 1 <;>
     cases h3 : (s.neg.push (expUpdate realSOps c.dt c.tauR (realSOps.K.div c.Q (realSOps.K.sub c.tau c.tauR)) q x) c.inplace).read 1 <;> rfl
+
+/-! ### `_synparam_at`: the selector clamp and the overbound replacement -/
+
+/-- `bounded_selector = selector.clamp(min=0, max=value.duration)` -/
+theorem gen_clamp_selector (sel dur : ℝ) :
+    clamp realSOps.K sel (realSOps.K.ofInt 0) dur = SynapseSitesR.synparam_bounded_selector sel dur := by
+  unfold clamp SynapseSitesR.synparam_bounded_selector
+  simp only [realSOps, realOps, decide_eq_true_eq, Int.cast_zero]
+  by_cases h1 : sel < 0
+  · rw [if_pos h1, max_eq_right (le_of_lt h1)]
+    by_cases h2 : dur < 0
+    · rw [if_pos h2, min_eq_right (le_of_lt h2)]
+    · rw [if_neg h2, min_eq_left (not_lt.mp h2)]
+  · rw [if_neg h1, max_eq_left (not_lt.mp h1)]
+    by_cases h2 : dur < sel
+    · rw [if_pos h2, min_eq_right (le_of_lt h2)]
+    · rw [if_neg h2, min_eq_left (not_lt.mp h2)]
+
+/-- `torch.where((selector - bounded_selector).abs() <= tolerance, res, overbound)` when an overbound
+value is configured; the value is left alone when it is `None` -/
+theorem gen_applyOverbound (tol sel bounded res o : ℝ) :
+    applyOverbound realSOps.K tol (some o) sel bounded res = SynapseSitesR.synparam_overbound sel bounded tol res o ∧
+    applyOverbound realSOps.K tol none sel bounded res = res := by
+  refine ⟨?_, rfl⟩
+  unfold applyOverbound SynapseSitesR.synparam_overbound
+  simp only [realSOps, realOps, decide_eq_true_eq]
+  by_cases h : |sel - bounded| ≤ tol
+  · rw [if_pos h, if_pos h]
+  · rw [if_neg h, if_neg h]
 
 end InfernoVerif.Synapse.Glue
